@@ -39,6 +39,7 @@ type UDPSession struct {
 	// is completed and the on-close callbacks run when Run returns, which happens RunExitDelay after the context ended
 	// (a socket reader that notices the cancellation at its next read heartbeat). Run must then be started (NewUDPConn does).
 	RunExitDelay time.Duration
+	inbox        chan []byte // RunExitDelay mode: datagrams handed to Deliver, processed by Run like a socket reader does
 }
 
 func NewUDPSession(maxSize uint32) *UDPSession {
@@ -98,12 +99,25 @@ func (s *UDPSession) WriteMulticastMessage(req *pool.Message, _ *net.UDPAddr, _ 
 	return s.WriteMessage(req)
 }
 
-func (s *UDPSession) Run(*client.Conn) error {
+// Deliver hands a datagram to the session's reader (RunExitDelay mode only): Run calls Conn.Process with it, as the real
+// sessions' Run loops do with what they read from the socket.
+func (s *UDPSession) Deliver(data []byte) {
+	s.inbox <- append([]byte(nil), data...)
+}
+
+func (s *UDPSession) Run(cc *client.Conn) error {
 	if s.RunExitDelay == 0 {
 		<-s.done
 		return nil
 	}
-	<-s.Context().Done()
+	for reading := true; reading; {
+		select {
+		case d := <-s.inbox:
+			_ = cc.Process(nil, d)
+		case <-s.Context().Done():
+			reading = false
+		}
+	}
 	time.Sleep(s.RunExitDelay) // the reader leaves its read at the next heartbeat
 	s.mu.Lock()
 	fns := s.onClose
@@ -181,6 +195,7 @@ func NewUDPConn(o UDPOpts) (*client.Conn, *UDPSession) {
 		}))
 	}
 	s.RunExitDelay = o.RunExitDelay
+	s.inbox = make(chan []byte, 256)
 	cc := client.NewConnWithOpts(s, &cfg, opts...)
 	if o.RunExitDelay > 0 {
 		go func() { _ = cc.Run() }()
